@@ -37,6 +37,7 @@ class Ref:
         self.ran = []  # (kind, pid, info) in execution order
         self.faults = faults or {}
         self.selected = []  # (dataset-id, tag) chosen at every dataset evaluation
+        self.unselected = []  # spec nodes of alternatives that were decided against (C06 laziness oracle)
         self.substitutes = {}  # dataset id -> constant (C18 substitution oracle)
 
     # -- helpers ----------------------------------------------------------
@@ -66,6 +67,8 @@ class Ref:
     def _opt(self, s, o):
         raw = U.lookup(s["key"], o)
         if raw is not U.ABSENT:
+            if s.get("dk") == "spec":
+                self.unselected.append(s["dv"])  # the default of a present option
             try:
                 value = U.substitute(raw, o)
             except U.MissingKey as e:
@@ -170,26 +173,37 @@ class Ref:
         except TypeError:
             raise RefErr("TypeError")
         if not found:
+            self.unselected.extend(b for _, b in s["table"])
             if default is None:
                 raise RefErr("SwitchError")
             return self.eval(default, o)
-        return self.eval(table[d], o)
+        chosen = table[d]
+        self.unselected.extend(b for _, b in s["table"] if b is not chosen)
+        if default is not None:
+            self.unselected.append(default)
+        return self.eval(chosen, o)
 
     def _case(self, s, o):
         d = self.eval(s["disp"], o)
         for i, (p, res) in enumerate(s["cases"]):
             self._hit("pred", f"cp{s['n']}.{i}" if "n" in s else f"cp:{p}")
             if pred(p)(d):
+                self.unselected.extend(r2 for j, (_, r2) in enumerate(s["cases"]) if j != i)
+                if s.get("default") is not None:
+                    self.unselected.append(s["default"])
                 return self.eval(res, o)
+        self.unselected.extend(r2 for _, r2 in s["cases"])
         if s.get("default") is not None:
             return self.eval(s["default"], o)
         raise RefErr("CaseWhenError")
 
     def _coalesce(self, s, o):
         last = None
-        for m in s["members"]:
+        for i, m in enumerate(s["members"]):
             try:
-                return self.eval(m, o)
+                v = self.eval(m, o)
+                self.unselected.extend(s["members"][i + 1:])  # members after the first success
+                return v
             except RefErr as e:
                 last = e
         raise last
@@ -273,6 +287,11 @@ class Ref:
         o2 = U.overlay(U.overlay(D, o), P)
         impl, tag = self._select(d, did, o2)
         self.selected.append((did, tag))
+        for alias, other in d.get("overloads", []):
+            if other is not impl:
+                self.unselected.extend(_impl_specs(other))
+        if tag != "default" and not d.get("abstract"):
+            self.unselected.extend(_impl_specs({"args": d.get("args", []), "expr": d.get("expr")}))
         value = self._run_impl(did, tag, impl, o2)
         cb = d.get("callback")
         if cb:
@@ -438,6 +457,22 @@ class Ref:
             raise AssertionError(k)
         return out
 
+    def reachable_avoiding(self, spec, avoid_ids, out=None):
+        """Dataset ids reachable from spec without passing through any spec node whose id() is in avoid_ids."""
+        out = set() if out is None else out
+        if id(spec) in avoid_ids:
+            return out
+        if spec["k"] == "ds":
+            did = str(spec["id"])
+            if did not in out:
+                out.add(did)
+                for sub in dataset_children(self.datasets[did]):
+                    self.reachable_avoiding(sub, avoid_ids, out)
+            return out
+        for c in children(spec):
+            self.reachable_avoiding(c, avoid_ids, out)
+        return out
+
     def reachable_datasets(self, spec, out=None):
         """Ids of every dataset syntactically reachable from spec."""
         out = set() if out is None else out
@@ -451,6 +486,14 @@ class Ref:
                 for sub in dataset_children(d):
                     self.reachable_datasets(sub, out)
         return out
+
+
+def _impl_specs(impl):
+    if impl.get("ds") is not None:
+        return [{"k": "ds", "id": impl["ds"]}]
+    if impl.get("expr") is not None:
+        return [impl["expr"]]
+    return [a for _, a in impl.get("args", [])]
 
 
 def dataset_children(d):
